@@ -192,14 +192,20 @@ Definition slwin_record (wins : list (nat * nat)) (fs gs : list bytes) (nb nf : 
             (sl_emit_center g2 (sl_out s))
   end.
 
-(* end of stream: every logged record in arrival order: Ingest(nil) on its group's window, handleDrainRecord *)
-Definition slwin_drain (wins : list (nat * nat)) (fs : list bytes) (nb : nat) (s : slstate) : slstate :=
+(* end of stream: every logged record in arrival order: Ingest(nil) on its group's window, then (fix: b0d126048) up to
+   [nf] more times while the centre is empty, handleDrainRecord *)
+Fixpoint sl_shift_to_center (n nb : nat) (g : slgroup) : slgroup :=
+  match n with
+  | O => g
+  | S n' => match slg_win g with Some _ :: _ => g | _ => sl_shift_to_center n' nb (wk_ingest nb None g) end
+  end.
+Definition slwin_drain (wins : list (nat * nat)) (fs : list bytes) (nb nf : nat) (s : slstate) : slstate :=
   fst (fold_left
     (fun (acc : slstate * omap (list record)) k =>
        let '(s, pend) := acc in
        match oget k (sl_groups s), oget k pend with
        | Some g, Some (dr :: rest) =>
-           let g1 := wk_ingest nb None g in
+           let g1 := sl_shift_to_center nf nb (wk_ingest nb None g) in
            let g2 := slwin_dispatch wins fs dr g1 in
            (mksls (oput k g2 (sl_groups s)) (sl_log s) (sl_emit_center g2 (sl_out s)), oput k rest pend)
        | _, _ => acc
@@ -211,4 +217,4 @@ Definition slwin_drain (wins : list (nat * nat)) (fs : list bytes) (nb : nat) (s
 Definition verb_step_slwin (wins : list (nat * nat)) (fs gs : list bytes) (rs : list record) : list orec :=
   let nb := fold_left Nat.max (map fst wins) 0%nat in
   let nf := fold_left Nat.max (map snd wins) 0%nat in
-  sl_out (slwin_drain wins fs nb (fold_left (slwin_record wins fs gs nb nf) rs (mksls [] [] []))).
+  sl_out (slwin_drain wins fs nb nf (fold_left (slwin_record wins fs gs nb nf) rs (mksls [] [] []))).
